@@ -151,6 +151,7 @@ type SymEffect struct {
 	Args   []Aff
 	Node   ast.Node
 	At     int
+	InCond bool // call made while a branch condition was evaluated (no Val/Args)
 }
 
 type SymPath struct {
@@ -161,6 +162,8 @@ type SymPath struct {
 	Ret     []Aff
 	RetNode *ast.ReturnStmt
 	Continues bool // loop segment: the path re-enters the loop head
+	condCalls map[*ast.CallExpr]bool
+	nonNeg    map[string]bool // atoms known to be >= 0 (range indices)
 }
 
 type SymEnv struct {
@@ -178,6 +181,7 @@ type SymEnv struct {
 	curEv  int
 	curGuards []SymCond               // see SymAccess.Guards
 	cmpVals   map[ast.Expr][2]Aff     // operands of comparisons evaluated in the current condition
+	condMemo  map[*ast.CallExpr]Aff
 	nCall  int
 	Hook   func(i int, ev Ev, sp *SymPath) // called before each event is executed
 	WrapAware bool     // treat uint64 additions of two untrusted 64-bit values as opaque (they may wrap)
@@ -227,7 +231,8 @@ func (e *SymEnv) nameOf(id *ast.Ident) string {
 		return n
 	}
 	if o != nil {
-		if _, isVar := o.(*types.Var); isVar && o.Parent() != nil && o.Parent() != e.p.Pkg.Types.Scope() && o.Pkg() == e.p.Pkg.Types {
+		// (a variable without a scope is the private copy an expanded helper's local got: a local as well)
+		if v, isVar := o.(*types.Var); isVar && !v.IsField() && o.Parent() != e.p.Pkg.Types.Scope() && o.Pkg() == e.p.Pkg.Types {
 			return "L:" + id.Name
 		}
 	}
@@ -475,6 +480,9 @@ func (e *SymEnv) Eval(x ast.Expr) Aff {
 		}
 		return affAtom("(" + ls + v.Op.String() + rs + ")")
 	case *ast.CallExpr:
+		if m, ok := e.condMemo[v]; ok {
+			return m // evaluated a moment ago for the same condition
+		}
 		name := p.CalleeName(v)
 		if strings.HasPrefix(name, "type:") && len(v.Args) == 1 {
 			tt := p.Info.TypeOf(v)
@@ -580,7 +588,7 @@ func (e *SymEnv) Eval(x ast.Expr) Aff {
 			tn = p.Str(v.Type)
 		}
 		var parts []string
-		for _, el := range v.Elts {
+		for i, el := range v.Elts {
 			if kv, ok := el.(*ast.KeyValueExpr); ok {
 				k := p.Str(kv.Key)
 				vs := e.Eval(kv.Value).String()
@@ -590,7 +598,15 @@ func (e *SymEnv) Eval(x ast.Expr) Aff {
 				}
 				parts = append(parts, k+":"+vs)
 			} else {
-				parts = append(parts, e.Eval(el).String())
+				vs := e.Eval(el).String()
+				// a positional struct literal is the keyed one (fields by position)
+				if st, isStruct := p.Info.TypeOf(v).Underlying().(*types.Struct); isStruct && i < st.NumFields() {
+					if vs == "nil" || vs == "0" || vs == "false" || vs == `""` {
+						continue
+					}
+					vs = st.Field(i).Name() + ":" + vs
+				}
+				parts = append(parts, vs)
 			}
 		}
 		if len(parts) > 8 {
@@ -714,6 +730,40 @@ func (p *GoProg) ExecPath(pa *Path, env *SymEnv) *SymPath {
 			env.Hook(i, ev, sp)
 		}
 		if ev.Br != nil {
+			if ev.Br.Kind == "range" && ev.Br.Block != nil {
+				// the index variable of a range loop is never negative
+				if rs, ok := ev.Br.Block.Stmt.(*ast.RangeStmt); ok && rs.Tok == token.DEFINE {
+					if id, ok := rs.Key.(*ast.Ident); ok && id.Name != "_" {
+						obj := p.Info.Defs[id]
+						written := false
+						ast.Inspect(rs.Body, func(n ast.Node) bool {
+							switch x := n.(type) {
+							case *ast.AssignStmt:
+								for _, l := range x.Lhs {
+									if li, ok := ast.Unparen(l).(*ast.Ident); ok && p.ObjOf(li) == obj {
+										written = true
+									}
+								}
+							case *ast.IncDecStmt:
+								if li, ok := ast.Unparen(x.X).(*ast.Ident); ok && p.ObjOf(li) == obj {
+									written = true
+								}
+							case *ast.UnaryExpr:
+								if li, ok := ast.Unparen(x.X).(*ast.Ident); ok && x.Op == token.AND && p.ObjOf(li) == obj {
+									written = true
+								}
+							}
+							return true
+						})
+						if obj != nil && !written {
+							if sp.nonNeg == nil {
+								sp.nonNeg = map[string]bool{}
+							}
+							sp.nonNeg[env.nameOf(id)] = true
+						}
+					}
+				}
+			}
 			sp.addCond(p, env, ev, i)
 			continue
 		}
@@ -1103,7 +1153,7 @@ func (sp *SymPath) addCond(p *GoProg, env *SymEnv, ev Ev, at int) {
 	br := ev.Br
 	env.cmpVals = map[ast.Expr][2]Aff{}
 	first := len(sp.Conds)
-	defer func() { env.curGuards = nil }()
+	defer func() { env.curGuards = nil; env.condMemo = nil }()
 	if br.Cond == nil {
 		sp.Conds = append(sp.Conds, SymCond{Other: "branch:" + br.Kind + map[bool]string{true: "", false: "!"}[ev.Taken], At: at})
 		return
@@ -1118,6 +1168,67 @@ func (sp *SymPath) addCond(p *GoProg, env *SymEnv, ev Ev, at int) {
 	}
 	for _, a := range atomsOf(EdgeFact{Br: br, Taken: ev.Taken}) {
 		e := ast.Unparen(a.E)
+		// a call made inside the condition is the same event as one made in a statement of its own in front of the test
+		// (only where the evaluation is certain: behind a short-circuit operator that may have cut it off, it is not)
+		var certain func(x ast.Expr, neg bool)
+		certain = func(x ast.Expr, neg bool) {
+			x = ast.Unparen(x)
+			if u, ok := x.(*ast.UnaryExpr); ok && u.Op == token.NOT {
+				certain(u.X, !neg)
+				return
+			}
+			if be, ok := x.(*ast.BinaryExpr); ok && (be.Op == token.LOR || be.Op == token.LAND) {
+				certain(be.X, neg)
+				if (be.Op == token.LOR) == neg { // a||b known false, a&&b known true: both were evaluated
+					certain(be.Y, neg)
+				}
+				return
+			}
+			var calls []*ast.CallExpr
+			var post func(n ast.Node)
+			post = func(n ast.Node) { // innermost first: evaluation order of nested calls
+				ast.Inspect(n, func(m ast.Node) bool {
+					if m == n || m == nil {
+						return true
+					}
+					switch y := m.(type) {
+					case *ast.FuncLit:
+						return false
+					case *ast.BinaryExpr:
+						if y.Op == token.LOR || y.Op == token.LAND {
+							return false
+						}
+					case *ast.CallExpr:
+						post(y)
+						calls = append(calls, y)
+						return false
+					}
+					return true
+				})
+			}
+			if c0, ok := x.(*ast.CallExpr); ok {
+				post(c0)
+				calls = append(calls, c0)
+			} else {
+				post(x)
+			}
+			for _, call := range calls {
+				if isConversionOrBuiltin(p, call) || sp.condCalls[call] {
+					continue
+				}
+				if sp.condCalls == nil {
+					sp.condCalls = map[*ast.CallExpr]bool{}
+				}
+				sp.condCalls[call] = true
+				p.execCall(sp, env, call, br.Cond, at)
+				sp.Effects[len(sp.Effects)-1].InCond = true
+				if env.condMemo == nil {
+					env.condMemo = map[*ast.CallExpr]Aff{}
+				}
+				env.condMemo[call] = sp.Effects[len(sp.Effects)-1].Val
+			}
+		}
+		certain(e, a.Neg)
 		// operands of a short-circuit chain are evaluated in order: the earlier ones already hold
 		env.curGuards = nil
 		for _, cd := range sp.Conds[first:] {
@@ -1209,6 +1320,13 @@ func (sp *SymPath) Feasible() bool {
 				pos[c.Other] = true
 			}
 			continue
+		}
+		if c.R.IsConst() && sp.nonNeg != nil {
+			if a, single := c.L.SingleAtom(); single && sp.nonNeg[a] {
+				if (c.Op == token.LSS && c.R.K <= 0) || (c.Op == token.LEQ && c.R.K < 0) || (c.Op == token.EQL && c.R.K < 0) {
+					return false
+				}
+			}
 		}
 		if c.L.IsConst() && c.R.IsConst() {
 			ok := true
